@@ -198,12 +198,13 @@ reg('C11', plan=plan_c11, level='proof', min_obligations=40,
     technique='Verus loop invariants: the output of each plane loop is stated as a function of origin-relative samples (row-major index map, chroma index (y>>ss_y, x>>ss_x)), for all geometries',
     text='Unbounded proof (Verus) for the two YUV plane loops: ycbcr_to_ypbpr returns width*height pixels in row-major order where pixel (x,y) is the kernel applied to Y(x,y) and the chroma samples at '
          '(x>>ss_x, y>>ss_y) of the origin-relative planes - hence independent of stride, padding and padding contents, and equal to the 1x1 conversion; ypbpr_to_ycbcr produces planes of size (w>>ss_x, h>>ss_y) '
-         'whose luma plane is the pointwise quantisation of the input; sources are borrowed immutably (frame condition by typing); results are spec functions of the inputs (determinism). '
+         'whose luma plane is the pointwise quantisation of the input and whose every chroma sample (both planes) is the quantised chroma of a pixel INSIDE ITS OWN BLOCK (invariant over the last_uv_pos write-skipping: a skipped write always targets a block already reached); '
+         'sources are borrowed immutably (frame condition by typing); results are spec functions of the inputs (determinism). '
          'The per-pixel loops of yuv_to_rgb, transform_primaries, LinearRgb<->Hsl are verified as in-place maps of one per-pixel function (index-loop form, same per-element expression); '
-         'every TryFrom/From body copies width and height through (contracts on all 18 conversion impls). the two XYB per-image functions are verified as per-pixel maps too (U-xyb, exact reals). Chroma-block membership of each subsampled chroma sample and the transfer flatten are not under contract here.',
+         'every TryFrom/From body copies width and height through (contracts on all 18 conversion impls). the two XYB per-image functions are verified as per-pixel maps too (U-xyb, exact reals). The transfer flatten (from_raw_parts_mut) is covered only by the bounded Kani harness.',
     note='Assumed: ' + '; '.join(PLANES_ASSUME) + '. ' + TOOLS,
     assumptions=PLANES_ASSUME,
-    not_decided=['each subsampled chroma sample equals the chroma of a pixel of its own block (last_uv_pos skipping) - not proved', 'pointwise-ness of the from_raw_parts_mut flatten in transfer.rs (bounded Kani harness only)'],
+    not_decided=['pointwise-ness of the from_raw_parts_mut flatten in transfer.rs (bounded Kani harness only)'],
     design_ref='DESIGN.md §5 C11')
 
 def plan_c12(tier, seed):
